@@ -31,8 +31,8 @@ IsAncestorOrSelf(m, a, i, fuel) ==       \* is a an ancestor of i (or i itself)?
    IF i = a THEN TRUE ELSE IF i = 0 \/ fuel = 0 THEN FALSE ELSE IsAncestorOrSelf(m, a, m.nodes[i].par, fuel - 1)
 
 RECURSIVE PathOf(_, _, _)
-PathOf(m, i, fuel) ==                    \* sequence of fold keys (of the long names) from the root
-   IF i = 0 \/ fuel = 0 THEN <<>> ELSE Append(PathOf(m, m.nodes[i].par, fuel - 1), Key(m.nodes[i].name))
+PathOf(m, i, fuel) ==                    \* sequence of names (exact units, case preserved) from the root
+   IF i = 0 \/ fuel = 0 THEN <<>> ELSE Append(PathOf(m, m.nodes[i].par, fuel - 1), m.nodes[i].name)
 
 IsSpecial(nm) == nm = <<46>> \/ nm = <<46, 46>>          \* "." and ".." : out of the explored contract
 
@@ -204,9 +204,9 @@ AfterTruncate(m, h) ==
 AfterFlush(m, h) == [m EXCEPT !.fh[h].dirty = FALSE]
 
 (* ---------------- the tree as a set of facts (for comparisons) ---------------- *)
-\* one fact per node: path of fold keys, kind, name as stored, and (files) content
+\* one fact per node: path of names as stored (case preserved), kind, and (files) content
 TreeFacts(m) ==
-   {[p |-> PathOf(m, i, 64), k |-> m.nodes[i].kind, name |-> m.nodes[i].name,
+   {[p |-> PathOf(m, i, 64), k |-> m.nodes[i].kind,
      d |-> IF m.nodes[i].kind = "f" THEN m.nodes[i].data ELSE <<>>] : i \in Ids(m)}
 \* nodes whose on-disk entry may lag behind (deferred write-back while a handle is dirty)
 DirtyNodes(m) == {m.fh[h].node : h \in {x \in DOMAIN m.fh : m.fh[x].dirty}}
